@@ -625,14 +625,12 @@ impl<'a, 'b> GeneratorState<'a> {
                         }
                         self.sasm(TYA)?;
                         self.acc_in_use = true;
-                        return self.generate_condition_ex(
-                            &ExprType::A(false),
-                            op,
-                            r,
-                            pos,
-                            negate,
-                            label,
-                        );
+                        // The register is `left`: it was `r` if the operands have been switched
+                        return if switch {
+                            self.generate_condition_ex(l, op, &ExprType::A(false), pos, negate, label)
+                        } else {
+                            self.generate_condition_ex(&ExprType::A(false), op, r, pos, negate, label)
+                        };
                     }
                 }
             }
@@ -678,14 +676,12 @@ impl<'a, 'b> GeneratorState<'a> {
                         }
                         self.sasm(TXA)?;
                         self.acc_in_use = true;
-                        return self.generate_condition_ex(
-                            &ExprType::A(false),
-                            op,
-                            r,
-                            pos,
-                            negate,
-                            label,
-                        );
+                        // The register is `left`: it was `r` if the operands have been switched
+                        return if switch {
+                            self.generate_condition_ex(l, op, &ExprType::A(false), pos, negate, label)
+                        } else {
+                            self.generate_condition_ex(&ExprType::A(false), op, r, pos, negate, label)
+                        };
                     }
                 }
             }
